@@ -3,7 +3,7 @@ import random
 
 from .. import treerec, treefam
 from ..core import cps
-from ..lexrec import sigma_strings, SIGMA_QUICK, random_unicode
+from ..lexrec import sigma_strings, SIGMA_QUICK, random_unicode, notable_inputs, long_token_inputs
 from .c01 import repo_texts
 
 LEVEL = 'model_checking'
@@ -18,7 +18,8 @@ def inputs(ctx, quick, rng):
         texts = texts[::3]
     texts += treefam.script_inputs(ctx, quick, rng, PID)
     texts += list(sigma_strings(SIGMA_QUICK, 2 if quick else 3))
-    texts += [random_unicode(rng, 50) for _ in range(800 if quick else 20000)]
+    texts += [random_unicode(rng, 50) for _ in range(800 if quick else 6000)]
+    texts += notable_inputs() + [t for t in long_token_inputs() if len(t) < 6000 and ' ' * 50 not in t]
     fx = repo_texts()
     texts += [t[:300] for t in fx] + [t[i:i + 150] for t in fx for i in range(0, min(len(t), 1500), 150)]
     return texts
@@ -37,6 +38,18 @@ def run(ctx):
             ctx.nontrivial(t)
     for t in texts[5:8]:
         ctx.sample(t)
+    if PID == 'C03':
+        from .. import treeops
+        treeops.model_check(ctx, 4 if quick else 5, 3, 'TreeOps')
+        nl = 6
+        for beh in treeops.behaviours(ctx, nl, 4, 'TreeOps_sim', 400 if quick else 8000, ctx.seed + 11):
+            stmt, msg = treeops.apply_real(beh, nl)
+            if msg:
+                ctx.drift('TreeOps.tla vs group_tokens: ' + msg)
+            texts.append('<group_tokens %s>' % [(o['g'], o['c'], o['s'], o['e'], o['x']) for o in beh['ops']])
+            traces.append(treeops.stmt_trace(len(traces), stmt))
+            ctx.evals()
+            ctx.nontrivial(texts[-1])
     rej = treefam.validate(ctx, traces, PROPS, 'TraceParse_' + PID)
     for tid, (clause, step) in sorted(rej.items(), key=lambda kv: len(texts[kv[0]])):
         t = texts[tid]
